@@ -19,6 +19,7 @@ import itertools
 import json
 import os
 import signal
+import time
 
 from common import sx, cps, parse_sx, err_name, VERIF
 
@@ -663,6 +664,20 @@ def evaluate(ctx, runner, case, model_line_sink=None):
     return res
 
 
+MODEL_COST_LIMIT = 20_000_000
+
+
+def model_cost(log):
+    """sum over the reader's polls of the bytes buffered at that poll"""
+    buf, cost = 0, 0
+    for e in log:
+        if e[0] == 'd':
+            buf += len(e[1])
+        elif e[0] == 't':
+            cost += buf
+    return cost
+
+
 def model_line(side, log):
     evs = ' '.join(('(d ' + sx(e[1]) + ')') if e[0] == 'd' else 't' for e in log if e[0] in ('d', 't'))
     return f'frame.run {side.name} {evs}'.rstrip()
@@ -1182,9 +1197,15 @@ def run(ctx):
         del executed[:]
         if not ctx.driver.available or not has_deser[0] or not todo:
             return
+        heavy = [x for x in todo if model_cost(x[2]['log']) > MODEL_COST_LIMIT]
+        if heavy:      # the list-based model is quadratic on (ticks x buffered bytes): tens of thousands of polls over a 64 KiB backlog
+            ctx.count('model-skipped:ticks-x-buffer-too-large', len(heavy))
+            todo = [x for x in todo if model_cost(x[2]['log']) <= MODEL_COST_LIMIT]
         lines = [model_line(s_, r_['log']) for s_, c_, r_ in todo]
+        t_drv = time.time()
         try:
             answers = ctx.driver.ask(lines)
+            ctx.cov['model_driver_wall_s'] = round(ctx.cov.get('model_driver_wall_s', 0) + time.time() - t_drv, 2)
         except Exception as e:  # noqa
             ctx.disagree(f'model driver failed: {e!r:.200}', {'kind': 'driver'})
             answers = []
@@ -1226,11 +1247,15 @@ def run(ctx):
         key = json.dumps([case['proto'], case['msgs'], case['script'], case.get('stubs', {}), case.get('via')], default=repr)
         ctx.case(key, nontrivial=len(case['msgs']) > 0, sample_every=997)
         ctx.count(f'{side.name}:{label}')
+        t_case = time.time()
         try:
             res = evaluate(ctx, runner, case)
         except Exception as e:  # noqa
             ctx.count(f'{side.name}:harness-exception:{err_name(e)}')
             res = {'fail': [f'evaluating the case raised {err_name(e)}: {e!r:.100}'], 'log': None, 'fin': None}
+        wl = ctx.cov.setdefault('wall_s_by_label', {})
+        lk = side.name + ':' + label.split(':')[0]
+        wl[lk] = round(wl.get(lk, 0.0) + time.time() - t_case, 3)
         if hl:
             frames = [bytes.fromhex(x) for x in case['frames']]
             classify(side, frames, case.get('cuts', []), ctx)
